@@ -7,8 +7,8 @@ ENUM = "bounded-exhaustive input enumeration (explicit-state search of depth 1) 
 SCHED = "stateless schedule exploration of the instrumented real code under a controlled scheduler (preemption/delay bounded or all interleavings, happens-before state cache)"
 
 C = {
- "C01": ("seq", SEQ, "Every reachable concrete tree over a small value universe under a size bound is visited (fixpoint, so histories of every length), with duplicates, absent values, Clear and Clone, and every public observer compared with a sorted-multiset model after every transition. Right level: the property is an invariant over all histories of a small sequential structure; the defects live at depth <= 3.", "Values/size bounded as in evidence.configs; comparator is a consistent total order; reflective fingerprint walker is trusted to separate states.", "3.C01"),
- "C02": ("seq", SEQ + "; plus parametrised insertion/deletion families up to n=1100", "All insertion/deletion interleavings over distinct values up to the size bound are enumerated to fixpoint and the shape reconstructed from pre+in order must be AVL-balanced with depth <= 1.4405 log2(n+2); sorted/reverse/inside-out families cover sizes the BFS cannot.", "Balance beyond the size bound only along the 9 families; O(log n) checked as comparator-call budget, not wall time.", "3.C02"),
+ "C01": ("seq", SEQ, "Every reachable concrete tree over a small value universe under a size bound is visited (fixpoint, so histories of every length), with duplicates, absent values, Clear and Clone, and every public observer compared with a sorted-multiset model after every transition; beyond the bound, deterministic families (700-value fills, every single/double removal from trees of every size up to 96/300 built in 7 orders, 10^5-10^6-operation churn on one tree). Right level: an invariant over all histories of a sequential structure.", "Values/size bounded as in evidence.configs; comparator is a consistent total order; reflective fingerprint walker is trusted to separate states.", "3.C01"),
+ "C02": ("seq", SEQ + "; plus parametrised insertion/deletion families up to n=1100", "All insertion/deletion interleavings over distinct values up to the size bound (9/12) are enumerated to fixpoint and the shape reconstructed from pre+in order must be AVL-balanced with depth <= 1.4405 log2(n+2); insertion/deletion-order families to n=1100, build-then-remove families (every single and double removal) and churn histories cover sizes the BFS cannot.", "Balance beyond the size bound only along the 9 families; O(log n) checked as comparator-call budget, not wall time.", "3.C02"),
  "C03": ("seq", SEQ + "; all ordered pairs of operand layouts x 4 implementation pairings", "Every concrete layout a 3-value sync2.Set can reach (read/dirty/expunged/promoted) and every maps.Set are used as both operands of every binary operation, with operand-unchanged and detachment checks.", "Universe of 3 values; set enumeration order unconstrained.", "3.C03"),
  "C04": ("sched", SEQ + " for single-goroutine histories; " + SCHED + " with porcupine linearizability checking and the race detector inside every explored schedule", "Sequential: all call sequences of any length over 2-3 keys (fixpoint). Concurrent: every pair of calls from 8 start layouts under ALL interleavings at atomic/mutex granularity, triples and two-call programs under a preemption bound; histories judged by porcupine; data races judged by TSan per schedule.", "Go atomics sequentially consistent; bounds on threads/calls/preemptions as reported; shims (vsync/vatomic) model the documented semantics.", "3.C04"),
  "C05": ("sched", SCHED + " with porcupine set model (composite calls decomposed) and in-schedule race detection", "Pairs of calls under all interleavings, triples and two-call programs under a preemption bound, from 6 start layouts; per-value alternation of successful Add/Remove is exactly linearizability to a set.", "At most 4 goroutines, 2 values; more goroutines are outside the bound.", "3.C05"),
@@ -61,7 +61,7 @@ m = {
  ],
  "checks": checks,
  "not_applicable": [],
- "notes": "Known findings and repaired defects: known_findings.txt. Fix commits live in /repo (messages start with 'fix:'). All checks rebuild from /repo's working tree on every run.",
+ "notes": "Known findings and repaired defects: known_findings.txt. Fix commits live in /repo (messages start with 'fix:'). All checks rebuild from /repo's working tree on every run (VERIF_REPO=<dir> points them at another copy). SEQ/ENUM checks run in a guarded child process (a crash or hang of the Go runtime becomes a localised violation). 86 seeded changes + 13 reverted fixes with detection results: seeded/RESULTS.md, seeded/regressions/; ./seed_regress.sh re-runs them all.",
 }
 json.dump(m, open("/verif/MANIFEST.json", "w"), indent=1)
 print("wrote MANIFEST.json with", len(checks), "checks")
